@@ -779,12 +779,17 @@ impl<'a> Validator<'a> {
     /// tells a node from the continuation of the previous line's plain scalar
     /// (#404), so both call sites — a plain line and `--- x` — get it.
     fn scan_content_line(&mut self) -> Result<(), YamlValidationError> {
-        self.at_node_start = !self.continues_plain_scalar();
+        let continuation = self.continues_plain_scalar();
+        self.at_node_start = !continuation;
         let result = self.scan_content_tokens();
         // A line that ended inside plain content may be continued by the next;
         // a trailing comment closes the scalar, so it cannot be.
         self.prev_line_open_plain = !self.at_node_start && !self.line_had_comment;
-        self.prev_line_indent = self.line_indent;
+        // A continuation line does not move the open scalar's indentation: the
+        // lines after `a: one\n    two` continue it from the first line's indent.
+        if !(continuation && self.prev_line_open_plain) {
+            self.prev_line_indent = self.line_indent;
+        }
         result
     }
 
